@@ -146,7 +146,45 @@ Proof.
   - exfalso. apply last_none_nil in Es. destruct (bkinds c); [discriminate|rewrite Es in Hl; discriminate].
 Qed.
 
-Lemma comb_ok c k' : binvA c -> (forall c2, ready c2 -> ok_err (k' c2)) -> ok_err (comb c k').
+Definition okB (r : res blk) : Prop := match r with OK B => binvA B | Err e => e = E_FUEL end.
+
+Lemma okB_ok_err r : okB r -> ok_err r.
+Proof. destruct r; cbn; auto. Qed.
+
+Lemma okB_bind A (m : res A) (f : A -> res blk) :
+  ok_err m -> (forall a, m = OK a -> okB (f a)) -> okB (bind m f).
+Proof. destruct m as [a|e]; cbn; intros H Hf; [apply Hf; reflexivity|exact H]. Qed.
+
+Lemma gln_spec c c' : gln c = OK c' ->
+  c' = c \/ (pushReturn (markCombined c) XNormal KNormal = OK c' /\ returnNormalRequired c = OK true).
+Proof.
+  unfold gln. destruct (bkind c); try (intros H; inversion H; auto; fail).
+  all: destruct (returnNormalRequired c) as [[|]|]; cbn [bind]; intros H; try discriminate; try (inversion H; auto; fail); auto.
+Qed.
+
+Lemma rnr_true_frozen c : binvA c -> returnNormalRequired c = OK true -> frozen c = false.
+Proof.
+  intros [Hl [Hp [Hf Hb]]] H. rewrite Hf. unfold returnNormalRequired in H.
+  destruct (lastKind c) as [k|] eqn:El; [|reflexivity].
+  destruct (lastStmt c) as [s|] eqn:Es.
+  - destruct k; try reflexivity; exfalso; destruct (bkind c); discriminate.
+  - exfalso. unfold lastStmt in Es. apply last_none_nil in Es. unfold lastKind in El.
+    destruct (bkinds c); [discriminate|rewrite Es in Hl; discriminate].
+Qed.
+
+Lemma gln_binvA c : binvA c -> exists c', gln c = OK c' /\ binvA c'.
+Proof.
+  intros Hc. destruct (gln_ok c (binvA_glnable c Hc)) as [c' E]. exists c'. split; [exact E|].
+  destruct (gln_spec c c' E) as [->|[E2 Hr]]; [exact Hc|].
+  assert (Hrd : ready (markCombined c)).
+  { pose proof (rnr_true_frozen c Hc Hr) as Hz. destruct Hc as [Hl [Hp [Hf Hb]]]. split; [repeat split; auto|split; [reflexivity|exact Hz]]. }
+  destruct (pushReturn_ok (markCombined c) XNormal KNormal Hrd eq_refl) as [c2 [E3 Hb2]]. rewrite E3 in E2. inversion E2; subst. exact Hb2.
+Qed.
+
+Lemma pushReturn_mk k e kd : is_ret_kind kd = true -> exists c, pushReturn (mkBlock k) e kd = OK c /\ bstmts c = [SRet e].
+Proof. intros H. unfold pushReturn, push, mkBlock. rewrite H. cbn. eexists. split; reflexivity. Qed.
+
+Lemma comb_ok c k' : binvA c -> (forall c2, ready c2 -> okB (k' c2)) -> okB (comb c k').
 Proof.
   intros Hc Hk. unfold comb. cbv zeta.
   assert (Ecr : combineRequired (markCombined c) = combineRequired c) by reflexivity. rewrite Ecr.
@@ -157,111 +195,137 @@ Proof.
     assert (Hg : glnable c1).
     { repeat split; auto. rewrite Hbk. reflexivity. }
     destruct (gln_ok c1 Hg) as [c1' ->]. cbn [bind].
-    apply ok_err_bind; [apply Hk; apply ready_mk; reflexivity|]. intros fol _.
-    destruct (pushReturn_ok c' (XCombine (XDelay (TLit (bstmts c1'))) (XDelay (TLit (bstmts fol)))) KCombine Hr' eq_refl) as [c4 [-> _]]. exact I.
+    apply okB_bind; [apply okB_ok_err; apply Hk; apply ready_mk; reflexivity|]. intros fol _.
+    destruct (pushReturn_ok c' (XCombine (XDelay (TLit (bstmts c1'))) (XDelay (TLit (bstmts fol)))) KCombine Hr' eq_refl) as [c4 [-> Hb4]]. exact Hb4.
   - apply Hk. destruct Hc as [Hl [Hp [Hf Hb]]]. split; [|split; [reflexivity|]].
     + repeat split; auto.
     + cbn [markCombined frozen]. rewrite Hf. unfold combineRequired in Er. destruct (lastKind c) as [[]|]; try discriminate; reflexivity.
 Qed.
 
 (* continuations are handed freshly pushed blocks *)
-Definition KA (k : blk -> res blk) : Prop := forall c, binvA c -> ok_err (k c).
+Definition KA (k : blk -> res blk) : Prop := forall c, binvA c -> okB (k c).
 
 Lemma accept f :
-  (forall k ss cur, supps k ss = true -> ready cur -> ok_err (rw_stmts f ss cur)) /\
-  (forall k s isLast cur kk, supp k s = true -> ready cur -> KA kk -> ok_err (rw_stmt f s isLast cur kk)) /\
-  (forall k s cur, supp k s = true -> is_if s = true -> ready cur ->
-      match rw_if f s cur with OK c' => binvA c' | Err e => e = E_FUEL end) /\
+  (forall k ss cur, supps k ss = true -> ready cur -> okB (rw_stmts f ss cur)) /\
+  (forall k s isLast cur kk, supp k s = true -> ready cur -> KA kk -> okB (rw_stmt f s isLast cur kk)) /\
+  (forall k s cur, supp k s = true -> is_if s = true -> ready cur -> okB (rw_if f s cur)) /\
   (forall k init c post b cur kk, supp k (SFor init c post b) = true -> ready cur -> KA kk ->
-      ok_err (rw_for f (SFor init c post b) init c post b cur kk)) /\
+      okB (rw_for f (SFor init c post b) init c post b cur kk)) /\
   (forall k init tag cases cur kk, supp k (SSwitch init tag cases) = true -> ready cur -> KA kk ->
-      ok_err (rw_switch f (SSwitch init tag cases) init tag cases cur kk)).
+      okB (rw_switch f (SSwitch init tag cases) init tag cases cur kk)).
 Proof.
   induction f as [|f [IH1 [IH2 [IH3 [IH4 IH5]]]]]; [repeat split; intros; reflexivity|].
-  assert (Hlastk : forall kd, good_bkind kd = true -> forall fol, binvA fol -> bkind fol = kd ->
-            ok_err (match bkind fol with KDelay => gln fol | _ => OK fol end)).
-  { intros kd _ fol Hfol _. destruct (bkind fol); try exact I. destruct (gln_ok fol (binvA_glnable fol Hfol)) as [c' ->]. exact I. }
-  assert (Htrivpush : forall cur s kk, ready cur -> KA kk -> ok_err (c <- push cur s KTrivial ;; kk c)).
+  assert (Hgln : forall fol, binvA fol -> okB (gln fol)).
+  { intros fol Hfol. destruct (gln_binvA fol Hfol) as [c' [-> Hb]]. exact Hb. }
+  assert (Htrivpush : forall cur s kk, ready cur -> KA kk -> okB (c <- push cur s KTrivial ;; kk c)).
   { intros cur s kk Hr Hk. destruct (push_ok cur s KTrivial Hr) as [c' [-> [Hb _]]]. cbn [bind]. apply Hk. apply Hb. reflexivity. }
-  repeat split.
+  assert (Hyield : forall v cur (kk : blk -> res blk), ready cur -> okB (kk (mkBlock KDelay)) ->
+            okB (fol <- kk (mkBlock KDelay) ;; pushReturn cur (XBind v (TLit (bstmts fol))) KYield)).
+  { intros v cur kk Hr Hk. apply okB_bind; [apply okB_ok_err; exact Hk|]. intros fol _.
+    destruct (pushReturn_ok cur (XBind v (TLit (bstmts fol))) KYield Hr eq_refl) as [c' [-> Hb]]. exact Hb. }
+  split; [|split; [|split; [|split]]].
   - (* rw_stmts *)
     intros k ss cur Hss Hcur. rewrite rw_stmts_S. destruct ss as [|s rest].
-    + destruct Hcur as [Hb _]. destruct (bkind cur); try exact I. destruct (gln_ok cur (binvA_glnable cur Hb)) as [c' ->]. exact I.
+    + destruct Hcur as [Hb _]. destruct (bkind cur); try exact Hb. apply Hgln. exact Hb.
     + unfold supps in Hss. cbn [forallb] in Hss. apply andb_prop in Hss. destruct Hss as [Hs Hrest]. cbv zeta.
       eapply IH2; [exact Hs|exact Hcur|]. intros fol Hfol.
       destruct rest as [|s2 rest2].
-      * destruct (bkind fol); try exact I. destruct (gln_ok fol (binvA_glnable fol Hfol)) as [c' ->]. exact I.
+      * destruct (bkind fol); try exact Hfol. apply Hgln. exact Hfol.
       * apply comb_ok; [exact Hfol|]. intros c2 Hc2. eapply IH1; eauto.
   - (* rw_stmt *)
     intros k s isLast cur kk Hs Hcur Hk. destruct k as [|k]; [discriminate|]. rewrite supp_S in Hs. rewrite rw_stmt_S.
     destruct s as [a|v|b|ini cnd th el|ini tag cases|ini cnd post b| | | | |e]; try discriminate.
     + apply Htrivpush; assumption.
     + destruct isLast.
-      * destruct (gln_ok (mkBlock KDelay) (binvA_glnable _ (binvA_mk KDelay eq_refl))) as [fol ->]. cbn [bind].
-        destruct (pushReturn_ok cur (XBind v (TLit (bstmts fol))) KYield Hcur eq_refl) as [c' [-> _]]. exact I.
-      * apply ok_err_bind; [apply Hk; apply binvA_mk; reflexivity|]. intros fol _.
-        destruct (pushReturn_ok cur (XBind v (TLit (bstmts fol))) KYield Hcur eq_refl) as [c' [-> _]]. exact I.
-    + apply ok_err_bind; [eapply IH1; [exact Hs|apply ready_mk; reflexivity]|]. intros fol _.
+      * apply (Hyield v cur (fun c => gln c) Hcur). apply Hgln. apply binvA_mk. reflexivity.
+      * apply (Hyield v cur kk Hcur). apply Hk. apply binvA_mk. reflexivity.
+    + apply okB_bind; [apply okB_ok_err; eapply IH1; [exact Hs|apply ready_mk; reflexivity]|]. intros fol _.
       destruct (mustNoYield fol).
       * apply Htrivpush; assumption.
       * destruct (pushReturn_ok cur (XDelay (TLit (bstmts fol))) KYield Hcur eq_refl) as [c' [-> Hb]]. cbn [bind]. apply Hk. exact Hb.
     + pose proof (IH3 (S k) (SIf ini cnd th el) cur) as H3. rewrite supp_S in H3. specialize (H3 Hs eq_refl Hcur).
       destruct (rw_if f (SIf ini cnd th el) cur) as [c|e]; cbn [bind]; [|exact H3].
-      destruct isLast; [|apply Hk; exact H3]. destruct (gln_ok c (binvA_glnable c H3)) as [c' ->]. exact I.
+      destruct isLast; [apply Hgln; exact H3|apply Hk; exact H3].
     + eapply (IH5 (S k)); [rewrite supp_S; exact Hs|exact Hcur|]. intros c Hc.
-      destruct isLast; [|apply Hk; exact Hc]. destruct (lastKind c) as [[]|]; try (apply Hk; exact Hc).
-      destruct (gln_ok c (binvA_glnable c Hc)) as [c' ->]. exact I.
+      destruct isLast; [|apply Hk; exact Hc]. destruct (lastKind c) as [[]|]; try (apply Hk; exact Hc). apply Hgln. exact Hc.
     + eapply (IH4 (S k)); [rewrite supp_S; exact Hs|exact Hcur|exact Hk].
-    + destruct (push_ok cur SBreak KTrivial Hcur) as [c' [-> _]]. exact I.
-    + destruct (push_ok cur SContinue KTrivial Hcur) as [c' [-> _]]. exact I.
-    + destruct (push_ok cur SFallthrough KTrivial Hcur) as [c' [-> _]]. exact I.
+    + destruct (push_ok cur SBreak KTrivial Hcur) as [c' [-> [Hb _]]]. apply Hb. reflexivity.
+    + destruct (push_ok cur SContinue KTrivial Hcur) as [c' [-> [Hb _]]]. apply Hb. reflexivity.
+    + destruct (push_ok cur SFallthrough KTrivial Hcur) as [c' [-> [Hb _]]]. apply Hb. reflexivity.
     + apply Htrivpush; assumption.
   - (* rw_if *)
     intros k s cur Hs Hif Hcur. destruct k as [|k]; [discriminate|]. rewrite supp_S in Hs.
     destruct s as [a|v|b|init c th el|ini tag cases|ini cnd post b| | | | |e]; try discriminate. rewrite rw_if_S.
     apply andb_prop in Hs. destruct Hs as [Hs He]. apply andb_prop in Hs. destruct Hs as [Hi Ht].
     rewrite (init_ok_hasYo _ Hi).
-    pose proof (IH1 k th (mkBlock KIf) Ht (ready_mk KIf eq_refl)) as Hb.
-    destruct (rw_stmts f th (mkBlock KIf)) as [body|e0]; cbn [bind]; [|exact Hb].
-    assert (Hpush : forall s0 kd, is_ret_kind kd = false -> match push cur s0 kd with OK c' => binvA c' | Err e => e = E_FUEL end).
+    apply okB_bind; [apply okB_ok_err; exact (IH1 k th (mkBlock KIf) Ht (ready_mk KIf eq_refl))|]. intros body _.
+    assert (Hpush : forall s0 kd, is_ret_kind kd = false -> okB (push cur s0 kd)).
     { intros s0 kd Hkd. destruct (push_ok cur s0 kd Hcur) as [c' [-> [Hb' _]]]. apply Hb'. exact Hkd. }
     destruct el as [|eb|alt].
     + destruct (mustNoYield body); apply Hpush; reflexivity.
-    + pose proof (IH1 k eb (mkBlock KIf) He (ready_mk KIf eq_refl)) as He'.
-      destruct (rw_stmts f eb (mkBlock KIf)) as [els|e0]; cbn [bind]; [|exact He'].
+    + apply okB_bind; [apply okB_ok_err; exact (IH1 k eb (mkBlock KIf) He (ready_mk KIf eq_refl))|]. intros els _.
       destruct (mustNoYield body && mustNoYield els); apply Hpush; reflexivity.
     + apply andb_prop in He. destruct He as [Hisif Halt].
-      pose proof (IH3 k alt (mkBlock KIf) Halt Hisif (ready_mk KIf eq_refl)) as He'.
-      destruct (rw_if f alt (mkBlock KIf)) as [els|e0]; cbn [bind]; [|exact He'].
+      apply okB_bind; [apply okB_ok_err; exact (IH3 k alt (mkBlock KIf) Halt Hisif (ready_mk KIf eq_refl))|]. intros els _.
       destruct (mustNoYield body && mustNoYield els); apply Hpush; reflexivity.
   - (* rw_for *)
     intros k init c post b cur kk Hs Hcur Hk. destruct k as [|k]; [discriminate|]. rewrite supp_S in Hs.
     apply andb_prop in Hs. destruct Hs as [Hs Hb]. apply andb_prop in Hs. destruct Hs as [Hi Hp].
-    rewrite rw_for_S. apply ok_err_bind; [eapply IH1; [exact Hb|apply ready_mk; reflexivity]|]. intros body _. cbv zeta.
-    rewrite (init_ok_hasYo _ Hp). cbn [negb]. rewrite !andb_true_r.
-    assert (Hafter : forall c2, binvA c2 ->
-              ok_err (if mustNoYield body then comb c2 (fun c3 => c4 <- push c3 (SFor None c post b) KTrivial ;; kk c4)
-                      else comb c2 (fun c3 => c4 <- pushReturn c3 (XFor (option_map CExp c) post (XDelay (TLit (bstmts body)))) KFor ;; kk c4))).
-    { intros c2 Hc2. destruct (mustNoYield body); (apply comb_ok; [exact Hc2|]); intros c3 Hc3.
-      - destruct (push_ok c3 (SFor None c post b) KTrivial Hc3) as [c4 [-> [Hb4 _]]]. cbn [bind]. apply Hk. apply Hb4. reflexivity.
-      - destruct (pushReturn_ok c3 (XFor (option_map CExp c) post (XDelay (TLit (bstmts body)))) KFor Hc3 eq_refl) as [c4 [-> Hb4]]. cbn [bind]. apply Hk. exact Hb4. }
-    destruct (negb (hasYo init) && mustNoYield body); [apply Htrivpush; assumption|].
-    destruct init as [i|]; [|apply Hafter; apply Hcur].
-    destruct f as [|f']; [reflexivity|]. rewrite rw_stmt_S. destruct i; try discriminate.
-    + destruct (push_ok cur (SAtom a) KTrivial Hcur) as [c' [-> [Hb' _]]]. cbn [bind]. apply Hafter. apply Hb'. reflexivity.
-    + apply ok_err_bind; [apply Hafter; apply binvA_mk; reflexivity|]. intros fol _.
-      destruct (pushReturn_ok cur (XBind v (TLit (bstmts fol))) KYield Hcur eq_refl) as [c' [-> _]]. exact I.
+    rewrite rw_for_S.
+    pose proof (IH1 k b (mkBlock KFor) Hb (ready_mk KFor eq_refl)) as Hbody.
+    destruct (rw_stmts f b (mkBlock KFor)) as [body|e0] eqn:Ebody; cbn [bind]; [|exact Hbody]. cbv zeta.
+    (* the hoisted init statement *)
+    assert (Hinit : forall after : blk -> res blk, (forall c2, binvA c2 -> okB (after c2)) ->
+              okB (match init with None => after cur | Some i => rw_stmt f i false cur after end)).
+    { intros after Ha. destruct init as [i|]; [|apply Ha; apply Hcur].
+      destruct f as [|f']; [reflexivity|]. rewrite rw_stmt_S. destruct i; try discriminate.
+      - destruct (push_ok cur (SAtom a) KTrivial Hcur) as [c' [-> [Hb' _]]]. cbn [bind]. apply Ha. apply Hb'. reflexivity.
+      - apply (Hyield v cur after Hcur). apply Ha. apply binvA_mk. reflexivity. }
+    assert (Hret : forall e c2, binvA c2 -> okB (comb c2 (fun c3 => c4 <- pushReturn c3 e KFor ;; kk c4))).
+    { intros e c2 Hc2. apply comb_ok; [exact Hc2|]. intros c3 Hc3.
+      destruct (pushReturn_ok c3 e KFor Hc3 eq_refl) as [c4 [-> Hb4]]. cbn [bind]. apply Hk. exact Hb4. }
+    unfold post_okb in Hp. destruct post as [[a|v|? |? ? ? ?|? ? ?|? ? ? ?| | | | |?]|]; try discriminate.
+    + (* post is an atom *)
+      change (hasYo (Some (SAtom a))) with false. cbn [negb]. rewrite !andb_true_r.
+      destruct (negb (hasYo init) && mustNoYield body); [apply Htrivpush; assumption|].
+      apply Hinit. intros c2 Hc2. destruct (mustNoYield body); [|apply Hret; exact Hc2].
+      apply comb_ok; [exact Hc2|]. intros c3 Hc3.
+      destruct (push_ok c3 (SFor None c (Some (SAtom a)) b) KTrivial Hc3) as [c4 [-> [Hb4 _]]]. cbn [bind]. apply Hk. apply Hb4. reflexivity.
+    + (* post is a Yield *)
+      change (hasYo (Some (SYield v))) with true. cbn [negb andb]. rewrite !andb_false_r. cbn [negb].
+      apply Hinit. intros c2 Hc2.
+      apply okB_bind; [|intros body' _; apply Hret; exact Hc2].
+      destruct f as [|f']; [destruct (combineRequired body); reflexivity|].
+      destruct (gln_binvA (mkBlock KDelay) (binvA_mk KDelay eq_refl)) as [fol [Efol _]].
+      destruct (combineRequired body) eqn:Ecr.
+      * rewrite rw_stmt_S. rewrite Efol. cbn [bind].
+        destruct (pushReturn_mk KDelay (XBind v (TLit (bstmts fol))) KYield eq_refl) as [pb [-> Epb]]. cbn [bind].
+        unfold lastStmt. rewrite Epb. cbn [map last].
+        destruct (gln_binvA body Hbody) as [b1 [-> _]]. cbn [bind].
+        destruct (pushReturn_mk (bkind body) (XCombine (XDelay (TLit (bstmts b1))) (XDelay (TLit [SRet (XBind v (TLit (bstmts fol)))]))) KCombine eq_refl) as [c5 [E5 _]].
+        rewrite E5. exact I.
+      * rewrite rw_stmt_S. rewrite Efol. cbn [bind].
+        assert (Hr : ready (markCombined body)).
+        { destruct Hbody as [Hl [Hpp [Hf Hbk]]]. split; [repeat split; auto|split; [reflexivity|]].
+          cbn [markCombined frozen]. rewrite Hf. unfold combineRequired in Ecr. destruct (lastKind body) as [[]|]; try discriminate; reflexivity. }
+        destruct (pushReturn_ok (markCombined body) (XBind v (TLit (bstmts fol))) KYield Hr eq_refl) as [c5 [-> _]]. exact I.
+    + (* no post *)
+      cbn [hasYo negb]. rewrite !andb_true_r.
+      destruct (negb (hasYo init) && mustNoYield body); [apply Htrivpush; assumption|].
+      apply Hinit. intros c2 Hc2. destruct (mustNoYield body); [|apply Hret; exact Hc2].
+      apply comb_ok; [exact Hc2|]. intros c3 Hc3.
+      destruct (push_ok c3 (SFor None c None b) KTrivial Hc3) as [c4 [-> [Hb4 _]]]. cbn [bind]. apply Hk. apply Hb4. reflexivity.
   - (* rw_switch *)
     intros k init tag cases cur kk Hs Hcur Hk. destruct k as [|k]; [discriminate|]. rewrite supp_S in Hs.
     apply andb_prop in Hs. destruct Hs as [Hi Hc]. rewrite rw_switch_S.
-    apply ok_err_bind.
+    apply okB_bind.
     { clear - Hc IH1. induction cases as [|[lab b] r IHr]; [exact I|]. cbn [rw_cases]. fold (rw_cases f).
       cbn [forallb snd] in Hc. apply andb_prop in Hc. destruct Hc as [Hb Hr]. apply clause_ok_inv in Hb. destruct Hb as [Hb1 _].
-      apply ok_err_bind; [eapply IH1; [exact Hb1|apply ready_mk; reflexivity]|]. intros cb _.
+      apply ok_err_bind; [apply okB_ok_err; eapply IH1; [exact Hb1|apply ready_mk; reflexivity]|]. intros cb _.
       apply ok_err_bind; [apply IHr; exact Hr|]. intros rr _. exact I. }
     intros [cases' allTrivial] _.
     assert (Hcomb : forall c2, binvA c2 ->
-              ok_err (comb c2 (fun c3 => c4 <- push c3 (SSwitch None tag cases') KSwitch ;; kk c4))).
+              okB (comb c2 (fun c3 => c4 <- push c3 (SSwitch None tag cases') KSwitch ;; kk c4))).
     { intros c2 Hc2. apply comb_ok; [exact Hc2|]. intros c3 Hc3.
       destruct (push_ok c3 (SSwitch None tag cases') KSwitch Hc3) as [c4 [-> [Hb4 _]]]. cbn [bind]. apply Hk. apply Hb4. reflexivity. }
     destruct init as [i|].
@@ -272,9 +336,11 @@ Proof.
         destruct (push_ok cur (SAtom a) KTrivial Hcur) as [c' [-> [Hb' _]]]. cbn [bind]. apply Hcomb. apply Hb'. reflexivity.
       * change (hasYo (Some (SYield v))) with true. cbn [negb andb].
         destruct f as [|f']; [reflexivity|]. rewrite rw_stmt_S.
-        apply ok_err_bind.
-        { destruct allTrivial; [apply Htrivpush; [apply ready_mk; reflexivity|exact Hk]|apply Hcomb; apply binvA_mk; reflexivity]. }
-        intros fol _. destruct (pushReturn_ok cur (XBind v (TLit (bstmts fol))) KYield Hcur eq_refl) as [c' [-> _]]. exact I.
+        destruct allTrivial.
+        -- apply (Hyield v cur (fun c2 => c3 <- push c2 (SSwitch None tag cases) KTrivial ;; kk c3) Hcur).
+           apply Htrivpush; [apply ready_mk; reflexivity|exact Hk].
+        -- apply (Hyield v cur (fun c2 => comb c2 (fun c3 => c4 <- push c3 (SSwitch None tag cases') KSwitch ;; kk c4)) Hcur).
+           apply Hcomb. apply binvA_mk. reflexivity.
     + cbn [hasYo negb andb]. destruct allTrivial; [apply Htrivpush; assumption|]. apply Hcomb. apply Hcur.
 Qed.
 
